@@ -163,3 +163,24 @@ impl Vm {
     self.gc.borrow().temp_roots()
   }
 }
+
+impl Vm {
+  /// Run only the front end (scan, parse, resolve, compile) on a source text.
+  /// Says if a program was produced; diagnostics go to stderr as usual
+  pub fn verif_compile(&mut self, name: &str, source_content: &str) -> bool {
+    use crate::source::Source;
+    use laythe_core::constants::SELF;
+
+    let source_content = self.manage_str(source_content);
+    self.push_root(source_content);
+    let source = Source::new(source_content);
+
+    let managed_path = self.manage_str(name);
+    self.push_root(managed_path);
+    let file_id = self.files.upsert(managed_path, source_content);
+    self.pop_roots(2);
+
+    let main_module = self.module(SELF, &managed_path);
+    self.compile(false, main_module, &source, file_id).is_ok()
+  }
+}
